@@ -2,6 +2,7 @@ package main
 
 import (
 	"fmt"
+	"sort"
 	"go/ast"
 	"go/constant"
 	"go/token"
@@ -119,6 +120,9 @@ func (e *Engine) VerifyFunc(fn *ssa.Function, con *Contract) (g *Gen, err error)
 	// every call selector of the contract must match at least one call
 	if con != nil {
 		for _, cs := range con.Calls {
+			if cs.Never {
+				continue // "never X" is satisfied by the absence of X
+			}
 			if g.callSelCount[cs.Sel] == 0 {
 				return g, fmt.Errorf("%s: call selector %q matches no call (contract target missing)", g.fnName, cs.Sel)
 			}
@@ -256,7 +260,8 @@ func (g *Gen) execBlock(b *ssa.BasicBlock) error {
 	}
 	g.out[b] = g.cur
 	// vacuity guard: the block must be reachable under everything assumed so far
-	if reach != "true" {
+	_, endsInPanic := b.Instrs[len(b.Instrs)-1].(*ssa.Panic)
+	if reach != "true" && !endsInPanic {
 		g.curGuard = reach
 		cv := g.oblige("cover", fmt.Sprintf("reach:b%d", b.Index), "false", g.blockPos(b), "block is reachable under the assumptions made up to its end")
 		cv.Must = "sat"
@@ -1125,8 +1130,8 @@ func (g *Gen) execDebugRef(x *ssa.DebugRef) {
 	if !isVar || v.IsField() {
 		return
 	}
-	name := v.Name()
-	if name == "_" {
+	name := g.localName[v]
+	if name == "" {
 		return
 	}
 	val, ok := g.vals[x.X]
@@ -1167,10 +1172,13 @@ func (g *Gen) prescanLocals() {
 	g.localAmbig = map[string]bool{}
 	g.localTypes = map[string]types.Type{}
 	g.localAddr = map[string]*Val{}
+	g.localName = map[types.Object]string{}
 	info := g.eng.typesInfo(g.fn)
 	if info == nil {
 		return
 	}
+	byName := map[string][]*types.Var{}
+	seen := map[*types.Var]bool{}
 	for _, b := range g.fn.Blocks {
 		for _, in := range b.Instrs {
 			dr, ok := in.(*ssa.DebugRef)
@@ -1182,15 +1190,27 @@ func (g *Gen) prescanLocals() {
 				continue
 			}
 			v, isVar := info.ObjectOf(id).(*types.Var)
-			if !isVar || v.IsField() {
+			if !isVar || v.IsField() || seen[v] {
 				continue
 			}
-			if prev, ok := g.localObjs[id.Name]; ok && prev != types.Object(v) {
-				g.localAmbig[id.Name] = true
+			seen[v] = true
+			byName[id.Name] = append(byName[id.Name], v)
+		}
+	}
+	for name, vs := range byName {
+		sort.Slice(vs, func(i, j int) bool { return vs[i].Pos() < vs[j].Pos() })
+		for k, v := range vs {
+			// a name declared once is used as is; otherwise name$1, name$2, ... in
+			// order of declaration (the plain name is then ambiguous)
+			spec := name
+			if len(vs) > 1 {
+				spec = fmt.Sprintf("%s$%d", name, k+1)
+				g.localAmbig[name] = true
 			}
-			g.localObjs[id.Name] = v
-			g.localTypes["$local:"+id.Name] = v.Type()
-			g.ghostSorts["$local:"+id.Name] = g.st.sortOf(v.Type())
+			g.localName[v] = spec
+			g.localObjs[spec] = v
+			g.localTypes["$local:"+spec] = v.Type()
+			g.ghostSorts["$local:"+spec] = g.st.sortOf(v.Type())
 		}
 	}
 }
